@@ -109,6 +109,13 @@ where
             pts.push(np.p.clone());
         }
     }
+    // curve points outside the subgroup whose y has a zero component (sort decided by the other component alone);
+    // they round-trip through the unchecked decoder only
+    let n_sub = pts.len();
+    for (_, x, y) in C::tie_points() {
+        pts.push(Pt::Aff(x.clone(), y.clone()));
+        pts.push(Pt::Aff(x, y.neg()));
+    }
     let l2 = C::K::from_u64(7);
     let inj = ctx.injecting("C05");
     ctx.sweep(
@@ -132,6 +139,9 @@ where
             }
             // round trip through both decoders
             for checked in [true, false] {
+                if checked && (i / 2) as usize >= n_sub {
+                    continue;
+                }
                 match C::lib_decode(&got, compressed, checked) {
                     Ok(b) if C::pt_of_aff(&b) == *p => {}
                     Ok(_) => return Err(Fail::new(format!("{}: decode(encode(P)) != P", name))),
